@@ -15,6 +15,9 @@ def run(ctx):
         # that it is the only way an accepted socket is left open at return (LeakOnlyBehindExit)
         system.engine_design(ctx)
     system.engine_traces(ctx, t, "shutdown")
+    # a connection arriving while the engine is stopping, the listener's loop busy and the listener duplicated by the user
+    t = system.record(ctx, "lateaccept", test="TestVerifLateAccept")
+    system.validate(ctx, t, ["TrFd", "TrLife"], "late connection during shutdown with DupListener held")
     t = system.record(ctx, "rotate-fail", test="TestVerifRotateFail")
     system.validate(ctx, t, ["TrFd"], "Rotate failing on a later address")
     if vlib.have_strace():
